@@ -149,12 +149,12 @@ Qed.
 Theorem whitespace_irrelevant : forall raw text1 text2,
   rend raw text1 -> rend raw text2 -> all_ascii text1 = true -> all_ascii text2 = true ->
   get_symbols text1 = get_symbols text2 /\
-  forall fl2, compile_text fl2 text1 = compile_text fl2 text2.
+  forall fl2 ct, compile_text fl2 ct text1 = compile_text fl2 ct text2.
 Proof.
   intros raw t1 t2 R1 R2 A1 A2.
   assert (E : get_symbols t1 = get_symbols t2).
   { unfold get_symbols. rewrite A1, A2, (split_rend raw t1 R1), (split_rend raw t2 R2). reflexivity. }
-  split; [exact E|]. intros fl2. unfold compile_text. rewrite E. reflexivity.
+  split; [exact E|]. intros fl2 ct. unfold compile_text. rewrite E. reflexivity.
 Qed.
 
 (* ====================================================================================== *)
@@ -267,12 +267,12 @@ Qed.
 (* 4. compile_script on the spellings of a program (C11)                                    *)
 (* ====================================================================================== *)
 
-Theorem compile_spells : forall fl2 p syms raw text,
+Theorem compile_spells : forall fl2 ct p syms raw text,
   spells fl2 p syms -> wf_prog p = true ->
   posts raw syms -> rend raw text -> all_ascii text = true ->
-  compile_text fl2 text = Ok (encode p).
+  compile_text fl2 ct text = Ok (encode p).
 Proof.
-  intros fl2 p syms raw text S W P R A. unfold compile_text.
+  intros fl2 ct p syms raw text S W P R A. unfold compile_text.
   rewrite (tokenise raw syms text R A P). cbn [rbind]. apply assemble_r_spells; assumption.
 Qed.
 
@@ -282,6 +282,7 @@ Qed.
 
 Section Comments.
   Variable fl2 : Z -> Z.
+  Variable ct : bytes -> res (option bytes).
 
   (* top-level statements and comments: a comment is one of the three symbols # / single quote /
      double quote, then symbols other than that one, then the same symbol again *)
@@ -315,7 +316,7 @@ Section Comments.
   Lemma tops_run : forall p syms, tops p syms -> wf_prog p = true ->
     existsb bad_symbol syms = false /\
     forall m F n, (List.length syms <= F)%nat -> (List.length syms <= n)%nat ->
-    asm_loop (pn_at fl2 F m) n syms = Ok (encode p).
+    asm_loop (pn_at fl2 ct F m) n syms = Ok (encode p).
   Proof.
     induction 1 as [|is ss p sp S T IH|q body p sp Q M U T IH]; intros W.
     - split; [reflexivity|]. intros m F n _ _. destruct n; reflexivity.
@@ -323,7 +324,7 @@ Section Comments.
       destruct (IH W2) as [U2 R2]. split.
       + destruct (good_stmt fl2 _ _ _ _ S W1) as (_ & _ & U1 & _). rewrite existsb_app, U1, U2. reflexivity.
       + intros m F n LF Ln. rewrite app_length in LF, Ln.
-        destruct (proj1 (spells_correct fl2 m) _ _ _ _ S W1 F sp ltac:(lia) (hd_error_hd_or sp))
+        destruct (proj1 (spells_correct fl2 ct m) _ _ _ _ S W1 F sp ltac:(lia) (hd_error_hd_or sp))
           as (h & t & -> & _ & P).
         cbn [defpre] in P. cbn [List.length] in *. destruct n as [|n']; [lia|].
         cbn [app asm_loop]. cbn [app] in P. rewrite P. cbn [rbind]. rewrite skipn_stmt.
@@ -333,8 +334,8 @@ Section Comments.
         rewrite (comment_unmodelled q Q), U2. reflexivity.
       + intros m F n LF Ln. cbn [List.length] in LF, Ln. rewrite app_length in LF, Ln. cbn [List.length] in LF, Ln.
         destruct F as [|f']; [lia|]. destruct n as [|n']; [lia|].
-        assert (E : pn_at fl2 (Datatypes.S f') m q (q :: body ++ q :: sp) = Ok ((List.length body + 2)%nat, [])).
-        { rewrite (PN_S fl2 m). unfold parse_next. rewrite Q. cbn [tl]. rewrite (index_of_mid q body sp M). reflexivity. }
+        assert (E : pn_at fl2 ct (Datatypes.S f') m q (q :: body ++ q :: sp) = Ok ((List.length body + 2)%nat, [])).
+        { rewrite (PN_S fl2 ct m). unfold parse_next. rewrite Q. cbn [tl]. rewrite (index_of_mid q body sp M). reflexivity. }
         cbn [asm_loop]. rewrite E. cbn [rbind].
         replace (List.length body + 2)%nat with (Datatypes.S (List.length (body ++ [q])))
           by (rewrite app_length; cbn [List.length]; lia).
@@ -343,7 +344,7 @@ Section Comments.
   Qed.
 
   Theorem assemble_tops : forall p syms, tops p syms -> wf_prog p = true ->
-    assemble_r fl2 syms = Ok (encode p).
+    assemble_r fl2 ct syms = Ok (encode p).
   Proof.
     intros p syms T W. destruct (tops_run p syms T W) as [U R]. unfold assemble_r.
     rewrite (bad_unmodelled syms U).
@@ -355,7 +356,7 @@ Section Comments.
      symbol list) with the same code *)
   Theorem compile_tops : forall p syms raw text, tops p syms -> wf_prog p = true ->
     posts raw syms -> rend raw text -> all_ascii text = true ->
-    compile_text fl2 text = Ok (encode p).
+    compile_text fl2 ct text = Ok (encode p).
   Proof.
     intros p syms raw text T W P R A. unfold compile_text.
     rewrite (tokenise raw syms text R A P). cbn [rbind]. apply assemble_tops; assumption.
@@ -379,7 +380,7 @@ Section Comments.
   Corollary comment_between : forall p1 s1 p2 s2 q body,
     seq fl2 Top (Some q) p1 s1 -> tops p2 s2 -> wf_prog p1 = true -> wf_prog p2 = true ->
     is_comment q = true -> mem q body = false -> existsb bad_symbol body = false ->
-    assemble_r fl2 (s1 ++ q :: body ++ q :: s2) = Ok (encode (p1 ++ p2)).
+    assemble_r fl2 ct (s1 ++ q :: body ++ q :: s2) = Ok (encode (p1 ++ p2)).
   Proof.
     intros p1 s1 p2 s2 q body S T W1 W2 Q M U. apply assemble_tops.
     - apply (seq_tops_app (Some q) p1 s1 S); [|reflexivity]. apply tp_comment; assumption.
@@ -396,10 +397,10 @@ Theorem tokenise_split : forall text syms, all_ascii text = true -> posts (split
   get_symbols text = Ok syms.
 Proof. intros text syms A P. unfold get_symbols. rewrite A. apply gs_posts. exact P. Qed.
 
-Theorem compile_tops_split : forall fl2 p syms text, tops fl2 p syms -> wf_prog p = true ->
-  all_ascii text = true -> posts (split_py text) syms -> compile_text fl2 text = Ok (encode p).
+Theorem compile_tops_split : forall fl2 ct p syms text, tops fl2 p syms -> wf_prog p = true ->
+  all_ascii text = true -> posts (split_py text) syms -> compile_text fl2 ct text = Ok (encode p).
 Proof.
-  intros fl2 p syms text T W A P. unfold compile_text. rewrite (tokenise_split text syms A P). cbn [rbind].
+  intros fl2 ct p syms text T W A P. unfold compile_text. rewrite (tokenise_split text syms A P). cbn [rbind].
   apply assemble_tops; assumption.
 Qed.
 
@@ -413,9 +414,9 @@ Definition example_text : string :=
 Lemma in_names : forall n, mem n all_names = true -> In n all_names.
 Proof. intros n H. apply mem_In. exact H. Qed.
 
-Example example_text_compiles : compile_text fl2_exact example_text = Ok (encode example_prog).
+Example example_text_compiles : compile_text fl2_exact ct0 example_text = Ok (encode example_prog).
 Proof.
-  apply (compile_tops_split fl2_exact example_prog
+  apply (compile_tops_split fl2_exact ct0 example_prog
            ["IF"; "("; "TRUE"; ")"; "{"; "PUSH"; "d1"; "}"; "ELSE"; "{"; "PUSH"; "x0102"; "}";
             "#"; "SET"; "AND"; "LOAD"; "#"; "@="; "k"; "1"; "@k"]).
   - (* the symbols: the if statement, a comment, the rest *)
